@@ -54,6 +54,11 @@ def region_free_of_chunks(b, o, s):
     return forall(0, len(b.chunks), lambda i: nobyte(o, s, b.chunks[i].start, b.chunks[i].end))
 
 
+def infree(b, x):
+    "byte x belongs to the free space (some chunk of the free list covers it)"
+    return exists(0, len(b.chunks), lambda i: b.chunks[i].start <= x and x < b.chunks[i].end)
+
+
 def fits(c, size, a):
     "first-fit test of the specification: the aligned start plus the size stays inside the chunk"
     return align_up(c.start, a) + size <= c.end
